@@ -90,6 +90,7 @@ def f32ToF64 (b : Nat) : Nat :=
       -- subnormal single: m * 2^-149, normal as a double
       let l := Nat.log2 m
       signBits + (l + 1023 - 149) * 4503599627370496 + (m * 2 ^ (52 - l) - 4503599627370496)
+  else if e = 255 then signBits + 2047 * 4503599627370496 + m * 536870912   -- infinity / NaN
   else signBits + (e + 896) * 4503599627370496 + m * 536870912
 
 /-- any numeric operand as a number of the shared value model (floats by bit pattern) -/
@@ -119,8 +120,61 @@ def isFloatN : MJ.Val.N → Bool
   | .f64 _ => true
   | _ => false
 
+def showN : MJ.Val.N → String
+  | .f64 b => showBits b
+  | n => s!"i:{n.int}"
+
+def isLiteralTok (tok : String) : Bool :=
+  tok.startsWith "lit:" || tok.startsWith "src:" || tok.startsWith "flit:" || tok.startsWith "fsrc:"
+
+def allSome {α : Type} : List (Option α) → Option (List α)
+  | [] => some []
+  | none :: _ => none
+  | some x :: xs => (allSome xs).map (x :: ·)
+
+/-- the comparison a registered test name stands for (`ge`, `>=`, `greaterthan`, …) -/
+def testOp (name : String) : Option MJ.NumF.CmpOp :=
+  match MJ.Gen.compareTestNames.lookup name with
+  | some arm => [MJ.NumF.CmpOp.lt, .le, .gt, .ge, .eq, .ne].find? (fun o => MJ.NumF.armName o == arm)
+  | none => none
+
+/-- chained comparisons and the other implementations of the comparison operators -/
+def handleImpl (fields : List String) : Option String :=
+  match fields with
+  | op :: toks =>
+    match op.splitOn ":" with
+    | ["chain", opsText] =>
+      match allSome ((opsText.splitOn ",").map parseCmp), allSome (toks.map parseN) with
+      | some ops, some (a :: rest) =>
+        if ops.length = rest.length then
+          let links := ops.zip rest
+          -- a chain of constants is folded at compile time, anything else runs on the VM
+          some (showBool (if toks.all isLiteralTok then MJ.NumF.chainFolded a links else MJ.NumF.chain a links))
+        else none
+      | _, _ => none
+    | [kind, name] =>
+      match testOp name, toks.map parseN with
+      | some o, [some a, some b] =>
+        let t := MJ.NumF.implCmp "tests:is" o a b
+        if kind = "is" then some (showBool t)
+        else if kind = "sel" ∨ kind = "selattr" then some (if t then "i:1" else "i:0")
+        else if kind = "rej" then some (if t then "i:0" else "i:1")
+        else none
+      | _, _ => none
+    | _ =>
+      match toks.map parseN with
+      | [some a, some b] =>
+        if op = "f_min" then some (showN (MJ.NumF.minOf a b))
+        else if op = "f_max" then some (showN (MJ.NumF.maxOf a b))
+        else none
+      | _ => none
+  | _ => none
+
 /-- cases outside the integer fragment: comparisons, float `//` `%`, float unary minus, filters -/
 def handleExtra (fields : List String) : Option String :=
+  match handleImpl fields with
+  | some m => some m
+  | none =>
   match fields with
   | ["neg", a] =>
     match parseN a with
